@@ -142,11 +142,71 @@ class Ctx:
         return rc
 
 
+class CallTimeout(Exception):
+    pass
+
+
+def _on_alarm(signum, frame):
+    raise CallTimeout()
+
+
+CALL_LIMIT_S = float(os.environ.get('VERIF_CALL_LIMIT_S', '120'))
+
+
+def describe(x, depth=0):
+    """small JSON description of an argument of an implementation call (for the in-flight record)"""
+    try:
+        if hasattr(x, 'neurons') and depth < 2:
+            return [describe(n, depth + 1) for n in list(x.neurons)[:6]]
+        if hasattr(x, 'nodes') and hasattr(x.nodes, 'columns'):
+            nd = x.nodes
+            cols = [c for c in ('node_id', 'parent_id', 'x', 'y', 'z', 'radius') if c in nd.columns]
+            return dict(type=type(x).__name__, id=str(getattr(x, 'id', None)), nodes=jsonable(nd[cols].values[:120].tolist()), columns=cols,
+                        n_connectors=None if getattr(x, '_connectors', None) is None else len(x._connectors))
+        if isinstance(x, np.ndarray):
+            return dict(ndarray=list(x.shape), head=jsonable(x.ravel()[:30].tolist()))
+        if isinstance(x, (int, float, str, bool)) or x is None:
+            return x
+        if isinstance(x, (list, tuple)) and depth < 2:
+            return [describe(v, depth + 1) for v in list(x)[:20]]
+        if isinstance(x, dict) and depth < 2:
+            return {str(k): describe(v, depth + 1) for k, v in list(x.items())[:20]}
+    except Exception:
+        pass
+    return repr(x)[:200]
+
+
 def guarded(fn, *a, **kw):
-    """Run an implementation call; map exceptions to a small enum."""
+    path = os.environ.get('VERIF_INFLIGHT')
+    if path:
+        try:
+            with open(path, 'w') as fh:
+                json.dump(dict(call=getattr(fn, '__qualname__', repr(fn)), module=getattr(fn, '__module__', None),
+                               args=[describe(v) for v in a], kwargs={k: describe(v) for k, v in kw.items()}), fh)
+        except Exception:
+            pass
+    return _guarded(fn, *a, **kw)
+
+
+def _guarded(fn, *a, **kw):
+    """Run an implementation call; map exceptions to a small enum.  A call that does not return within CALL_LIMIT_S seconds
+    (a corrupted table can send navis' graph code into an endless walk) is reported as crashed: 'TimeoutError'."""
+    import signal
+    use_alarm = hasattr(signal, 'setitimer') and __import__('threading').current_thread() is __import__('threading').main_thread()
+    if use_alarm:
+        old = signal.signal(signal.SIGALRM, _on_alarm)
+        signal.setitimer(signal.ITIMER_REAL, CALL_LIMIT_S)
     try:
         return ('ok', fn(*a, **kw))
+    except CallTimeout:
+        return ('crashed', 'TimeoutError: implementation call did not return within %g s' % CALL_LIMIT_S)
+    except MemoryError:
+        return ('crashed', 'MemoryError: implementation call exceeded the memory cap')
     except (ValueError, KeyError, TypeError, IndexError) as e:
         return ('rejected', '%s: %s' % (type(e).__name__, str(e)[:200]))
     except Exception as e:  # noqa
         return ('crashed', '%s: %s\n%s' % (type(e).__name__, str(e)[:200], traceback.format_exc()[-600:]))
+    finally:
+        if use_alarm:
+            signal.setitimer(signal.ITIMER_REAL, 0)
+            signal.signal(signal.SIGALRM, old)
